@@ -85,9 +85,16 @@ Proof. intros presize progs sched Ok s. apply len_bounds. apply sall_run. exact 
 Print Assumptions C14_len_any_time.
 
 Theorem C14_flush : forall s, let s' := sflush s in
-  ss_index s' = [] /\ ss_files s' = [] /\ ss_cnt s' = 0 /\ ss_wf s' = 0 /\ ss_texts s' = [] /\ (forall g, ~ stored (ss_index s') g).
+  ss_index s' = [] /\ Forall (fun f => f = []) (ss_files s') /\ length (ss_files s') = length (ss_files s)
+  /\ ss_cnt s' = 0 /\ ss_wf s' = 0 /\ ss_texts s' = [] /\ (forall g, ~ stored (ss_index s') g).
 Proof. exact flush_resets. Qed.
 Print Assumptions C14_flush.
+
+(* a flush between operations starts a new epoch in which every invariant holds again (the writer numbers of the processes
+   stay valid), so all of the above holds for whatever is stored and read afterwards *)
+Theorem C14_flush_epoch : forall s, SAll s -> (forall p pr, nth_error (ss_procs s) p = Some pr -> p_pc pr = PIdle) -> SAll (sflush s).
+Proof. exact flush_epoch. Qed.
+Print Assumptions C14_flush_epoch.
 
 (* every operation completes: while some process still has an operation to run some process can make a step (the lock is
    always released by its holder), every step decreases a measure, hence under every scheduler that picks a process that
